@@ -369,11 +369,21 @@ func runC14(w *mon.W) {
 			w.SelfCheckFail(fmt.Sprintf("gffread(gffwrite(R)) != R: %v", err))
 		} else {
 			var z poly.Sequence
-			if p := mon.Try(func() { z = gff.Parse([]byte(lay)) }); p != "" {
+			how := "gff.Parse of an independently laid out file"
+			parse := func() { z = gff.Parse([]byte(lay)) }
+			if k%5 == 2 {
+				// the same text through the file-based entry point
+				how = "gff.Read of an independently laid out file"
+				path := filepath.Join(tmp, "own.gff")
+				os.WriteFile(path, []byte(lay), 0644)
+				parse = func() { z = gff.Read(path) }
+				w.Add("independent_layouts_through_Read", 1)
+			}
+			if p := mon.Try(parse); p != "" {
 				w.Violation(id, fmt.Sprintf("gff.Parse of an independently laid out GFF3 file (sequence length %d): %s", L, p), map[string]any{"length": L, "gff": clip(lay, 8000)})
 			} else {
 				w.Add("independent_layouts_parsed", 1)
-				c14CheckParsed(w, id, "gff.Parse of an independently laid out file", rec, z, map[string]any{"length": L, "gff": clip(lay, 8000)})
+				c14CheckParsed(w, id, how, rec, z, map[string]any{"length": L, "gff": clip(lay, 8000)})
 			}
 		}
 		w.End()
